@@ -107,74 +107,82 @@ def run(ck: Checker):
                  f'the pass object is modified while transforming (state leaks into the next call on another circuit): {why}', construct=f'{cname}._transform stateless')
     ck.floor('C03.PURE', 14)
 
-    # ---- FRESH / IFACE / EMIT per pass ----
-    for m, cname, fn, (hm, h, cparam, hq) in rebuild_functions(repo):
-        new = _new_circuit_var(h)
-        rets = [n for n in walk_no_nested(h) if isinstance(n, ast.Return) and n.value is not None]
-        ck.check(new is not None and len(rets) >= 1 and all(is_name(r.value, new) for r in rets), 'C03.FRESH', hm, h,
-                 f'{cname} returns a circuit allocated in this call', f'{hq} does not return a local `Circuit()`', construct=f'{hq} returns new Circuit()')
-        if new is None:
-            continue
-        # IFACE
-        so = [c for c in calls_in(h, 'set_outputs') if norm(c.func.value) == new]
-        si = [c for c in calls_in(h, 'set_inputs') if norm(c.func.value) == new]
-        ck.check(len(so) == 1 and _order_preserving_image(h, so[0].args[0] if so and so[0].args else None, f'{cparam}.outputs', allow_filter=False)[0],
-                 'C03.IFACE', hm, so[0] if so else h, f'{cname}: outputs of the result are the argument\'s outputs, in order, mapped element-wise',
-                 'set_outputs(...) missing or not an order-preserving element-wise image of circuit.outputs: ' + (norm(so[0])[:120] if so else 'no call'),
-                 construct=f'{hq}: set_outputs')
-        ok_in = False
-        why = 'set_inputs(...) missing'
-        if len(si) == 1 and si[0].args:
-            ok_in, filt = _order_preserving_image(h, si[0].args[0], f'{cparam}.inputs', allow_filter=True, identity=True)
-            why = f'`{norm(si[0])[:120]}` is not circuit.inputs in order'
-            if ok_in and filt is not None:
-                ok_in, why = _filtered_inputs_ok(h, new, cparam, filt)
-        ck.check(ok_in, 'C03.IFACE', hm, si[0] if si else h, f'{cname}: inputs of the result are the argument\'s inputs in the same order (minus unreachable ones only on request)',
-                 why, construct=f'{hq}: set_inputs')
-        # EMIT
-        n_emit = 0
-        for c in calls_in(h, 'emplace_gate'):
-            if norm(c.func.value) != new:
+    ck.rule('C03.FOLD', 'each pass folded by the mini-evaluator over a family of model circuits (shapes named by the property + seeded random ones) with oracle traversals in two visiting orders: new circuit, argument untouched, same inputs, same outputs count and functions, well formed, not larger')
+    from .. import passes
+    passes.fold_passes(ck, 'C03.FOLD')
+    ck.floor('C03.FOLD', 5)
+    from .C18 import unary_chain_fold
+    unary_chain_fold(ck, rule='C03.UNARY')
+    # structural rules about the rebuild bookkeeping: they speak where they recognise the code; otherwise the clause is the fold's
+    with ck.soft('C03.FOLD'):
+        # ---- FRESH / IFACE / EMIT per pass ----
+        for m, cname, fn, (hm, h, cparam, hq) in rebuild_functions(repo):
+            new = _new_circuit_var(h)
+            rets = [n for n in walk_no_nested(h) if isinstance(n, ast.Return) and n.value is not None]
+            ck.check(new is not None and len(rets) >= 1 and all(is_name(r.value, new) for r in rets), 'C03.FRESH', hm, h,
+                     f'{cname} returns a circuit allocated in this call', f'{hq} does not return a local `Circuit()`', construct=f'{hq} returns new Circuit()')
+            if new is None:
                 continue
-            n_emit += 1
-            encl = hm.enclosing_function(c)
-            gparam = encl.args.args[0].arg if encl is not h and encl.args.args else None
-            kw = {k.arg: k.value for k in c.keywords}
-            pos = c.args
-            label = kw.get('label', pos[0] if pos else None)
-            typ = kw.get('gate_type', pos[1] if len(pos) > 1 else None)
-            ops = kw.get('operands', pos[2] if len(pos) > 2 else None)
-            probs = []
-            if gparam is None:
-                probs.append('gate emitted outside a traversal hook')
-            else:
-                if label is None or norm(label) != f'{gparam}.label':
-                    probs.append(f'label `{norm(label) if label is not None else None}` is not the visited gate\'s label')
-                if typ is None or norm(typ) != f'{gparam}.gate_type':
-                    probs.append(f'type `{norm(typ) if typ is not None else None}` is not the visited gate\'s type')
-                od = deref(encl, ops) if ops is not None else None
-                if od is None or not _operands_image(od, gparam):
-                    probs.append(f'operands `{norm(ops) if ops is not None else None}` are not the visited gate\'s operands in order (element-wise remapped)')
-            ck.check(not probs, 'C03.EMIT', hm, c, f'{cname}: rebuilt gate keeps label, type and operand order', '; '.join(probs), construct=f'{hq}: emplace_gate')
-        ck.need(n_emit >= 1, f'{hm.rel}: {hq} emits no gate (shape changed)')
-        # other creation paths: add_inputs only
-        for c in calls_in(h):
-            if isinstance(c.func, ast.Attribute) and norm(c.func.value) == new and call_name(c) in ('add_gate', '_emplace_gate', '_add_gate', 'rename_gate', 'connect_circuit', 'add_circuit', 'extend_circuit'):
-                ck.bad('C03.EMIT', hm, c, f'{cname}: gates are created only by the checked emplace_gate/add_inputs of visited gates',
-                       f'`{norm(c)[:100]}` creates or renames gates outside the audited shape', construct=f'{hq}: {call_name(c)}')
-        for c in calls_in(h, 'add_inputs'):
-            if norm(c.func.value) != new:
-                continue
-            arg = c.args[0] if c.args else None
-            encl = hm.enclosing_function(c)
-            gparam = encl.args.args[0].arg if encl is not h and encl.args.args else None
-            ok = False
-            if isinstance(arg, ast.List) and len(arg.elts) == 1 and gparam and norm(arg.elts[0]) == f'{gparam}.label':
-                ok = True
-            elif isinstance(arg, ast.ListComp) and len(arg.generators) == 1 and norm(arg.generators[0].iter) == f'{cparam}.inputs' and norm(arg.elt) == norm(arg.generators[0].target):
-                ok = True
-            ck.check(ok, 'C03.EMIT', hm, c, f'{cname}: added inputs are labels of the argument\'s inputs', f'`{norm(c)[:120]}` adds inputs not drawn from the argument',
-                     construct=f'{hq}: add_inputs')
+            # IFACE
+            so = [c for c in calls_in(h, 'set_outputs') if norm(c.func.value) == new]
+            si = [c for c in calls_in(h, 'set_inputs') if norm(c.func.value) == new]
+            ck.check(len(so) == 1 and _order_preserving_image(h, so[0].args[0] if so and so[0].args else None, f'{cparam}.outputs', allow_filter=False)[0],
+                     'C03.IFACE', hm, so[0] if so else h, f'{cname}: outputs of the result are the argument\'s outputs, in order, mapped element-wise',
+                     'set_outputs(...) missing or not an order-preserving element-wise image of circuit.outputs: ' + (norm(so[0])[:120] if so else 'no call'),
+                     construct=f'{hq}: set_outputs')
+            ok_in = False
+            why = 'set_inputs(...) missing'
+            if len(si) == 1 and si[0].args:
+                ok_in, filt = _order_preserving_image(h, si[0].args[0], f'{cparam}.inputs', allow_filter=True, identity=True)
+                why = f'`{norm(si[0])[:120]}` is not circuit.inputs in order'
+                if ok_in and filt is not None:
+                    ok_in, why = _filtered_inputs_ok(h, new, cparam, filt)
+            ck.check(ok_in, 'C03.IFACE', hm, si[0] if si else h, f'{cname}: inputs of the result are the argument\'s inputs in the same order (minus unreachable ones only on request)',
+                     why, construct=f'{hq}: set_inputs')
+            # EMIT
+            n_emit = 0
+            for c in calls_in(h, 'emplace_gate'):
+                if norm(c.func.value) != new:
+                    continue
+                n_emit += 1
+                encl = hm.enclosing_function(c)
+                gparam = encl.args.args[0].arg if encl is not h and encl.args.args else None
+                kw = {k.arg: k.value for k in c.keywords}
+                pos = c.args
+                label = kw.get('label', pos[0] if pos else None)
+                typ = kw.get('gate_type', pos[1] if len(pos) > 1 else None)
+                ops = kw.get('operands', pos[2] if len(pos) > 2 else None)
+                probs = []
+                if gparam is None:
+                    probs.append('gate emitted outside a traversal hook')
+                else:
+                    if label is None or norm(label) != f'{gparam}.label':
+                        probs.append(f'label `{norm(label) if label is not None else None}` is not the visited gate\'s label')
+                    if typ is None or norm(typ) != f'{gparam}.gate_type':
+                        probs.append(f'type `{norm(typ) if typ is not None else None}` is not the visited gate\'s type')
+                    od = deref(encl, ops) if ops is not None else None
+                    if od is None or not _operands_image(od, gparam):
+                        probs.append(f'operands `{norm(ops) if ops is not None else None}` are not the visited gate\'s operands in order (element-wise remapped)')
+                ck.check(not probs, 'C03.EMIT', hm, c, f'{cname}: rebuilt gate keeps label, type and operand order', '; '.join(probs), construct=f'{hq}: emplace_gate')
+            ck.need(n_emit >= 1, f'{hm.rel}: {hq} emits no gate (shape changed)')
+            # other creation paths: add_inputs only
+            for c in calls_in(h):
+                if isinstance(c.func, ast.Attribute) and norm(c.func.value) == new and call_name(c) in ('add_gate', '_emplace_gate', '_add_gate', 'rename_gate', 'connect_circuit', 'add_circuit', 'extend_circuit'):
+                    ck.bad('C03.EMIT', hm, c, f'{cname}: gates are created only by the checked emplace_gate/add_inputs of visited gates',
+                           f'`{norm(c)[:100]}` creates or renames gates outside the audited shape', construct=f'{hq}: {call_name(c)}')
+            for c in calls_in(h, 'add_inputs'):
+                if norm(c.func.value) != new:
+                    continue
+                arg = c.args[0] if c.args else None
+                encl = hm.enclosing_function(c)
+                gparam = encl.args.args[0].arg if encl is not h and encl.args.args else None
+                ok = False
+                if isinstance(arg, ast.List) and len(arg.elts) == 1 and gparam and norm(arg.elts[0]) == f'{gparam}.label':
+                    ok = True
+                elif isinstance(arg, ast.ListComp) and len(arg.generators) == 1 and norm(arg.generators[0].iter) == f'{cparam}.inputs' and norm(arg.elt) == norm(arg.generators[0].target):
+                    ok = True
+                ck.check(ok, 'C03.EMIT', hm, c, f'{cname}: added inputs are labels of the argument\'s inputs', f'`{norm(c)[:120]}` adds inputs not drawn from the argument',
+                         construct=f'{hq}: add_inputs')
     # input removal is the user's request only: the library itself never constructs the pass with it
     def _asks_removal(call):
         vals = [k.value for k in call.keywords if k.arg == 'allow_inputs_removal'] + list(call.args[:1])
@@ -188,78 +196,76 @@ def run(ck: Checker):
             ck.check(not _asks_removal(c), 'C03.IFACE', m, c, 'passes and pipelines of the library apply RemoveRedundantGates without input removal (inputs disappear only when the caller asked for it)',
                      f'`{norm(c)}` requests input removal inside the library: unreachable inputs vanish although the caller did not ask', construct=f'{norm(c.func)}(...) construction in {m.enclosing_function(c).name if m.enclosing_function(c) else "<module>"}')
     ck.need(n_sites >= 4, f'only {n_sites} RemoveRedundantGates constructions found (4 confirmed by reading)')
-    ck.floor('C03.FRESH', 4)
-    ck.floor('C03.IFACE', 12)
-    ck.floor('C03.EMIT', 6)
+    with ck.soft('C03.FOLD'):
+        ck.floor('C03.FRESH', 4)
+        ck.floor('C03.IFACE', 12)
+        ck.floor('C03.EMIT', 6)
 
-    # ---- SYM ----
-    mdg = repo.mod(f'{SIMPL}.merge_duplicate_gates')
-    bs = mdg.func('MergeDuplicateGates._transform._build_signature')
-    sorts = [n for n in ast.walk(bs) if isinstance(n, ast.Call) and call_name(n) == 'sorted']
-    ok = bool(sorts)
-    for s in sorts:
-        st = mdg.enclosing_stmt(s)
-        par = mdg.parents[st]
-        tp_param = bs.args.args[0].arg
-        ok = ok and isinstance(par, ast.If) and norm(par.test) == f'{tp_param}.is_symmetric' and st in par.body
-    ck.check(ok, 'C03.SYM', mdg, bs, 'operands are sorted in the signature only for symmetric gate types',
-             'operand sorting is not guarded by `if _gate_type.is_symmetric`', construct='_build_signature sorting guard')
-    op_param = bs.args.args[1].arg
-    exact = bool(sorts) and all(len(s_.args) == 1 and not s_.keywords and norm(s_.args[0]) == op_param and isinstance(mdg.parents.get(s_), ast.Call)
-                               and norm(mdg.parents[s_].func) == 'tuple' for s_ in sorts)
-    ck.check(exact, 'C03.SYM', mdg, sorts[0] if sorts else bs, 'the signature keeps the operand multiset (sorting only reorders: duplicates stay)',
-             f'`{norm(sorts[0]) if sorts else None}` does not sort exactly the operand tuple: XOR(a, b, a) and XOR(a, b) would share a signature', construct='_build_signature keeps the multiset')
-    rets = [n for n in ast.walk(bs) if isinstance(n, ast.Return)]
-    ck.check(len(rets) == 1 and norm(rets[0].value) == f'({bs.args.args[0].arg},) + {bs.args.args[1].arg}', 'C03.SYM', mdg, rets[0] if rets else bs,
-             'the signature contains the gate type and all operands', f'signature is `{norm(rets[0].value) if rets else None}`', construct='_build_signature value')
+        # ---- SYM ----
+        mdg = repo.mod(f'{SIMPL}.merge_duplicate_gates')
+        bs = mdg.func('MergeDuplicateGates._transform._build_signature')
+        sorts = [n for n in ast.walk(bs) if isinstance(n, ast.Call) and call_name(n) == 'sorted']
+        ok = bool(sorts)
+        for s in sorts:
+            st = mdg.enclosing_stmt(s)
+            par = mdg.parents[st]
+            tp_param = bs.args.args[0].arg
+            ok = ok and isinstance(par, ast.If) and norm(par.test) == f'{tp_param}.is_symmetric' and st in par.body
+        ck.check(ok, 'C03.SYM', mdg, bs, 'operands are sorted in the signature only for symmetric gate types',
+                 'operand sorting is not guarded by `if _gate_type.is_symmetric`', construct='_build_signature sorting guard')
+        op_param = bs.args.args[1].arg
+        exact = bool(sorts) and all(len(s_.args) == 1 and not s_.keywords and norm(s_.args[0]) == op_param and isinstance(mdg.parents.get(s_), ast.Call)
+                                   and norm(mdg.parents[s_].func) == 'tuple' for s_ in sorts)
+        ck.check(exact, 'C03.SYM', mdg, sorts[0] if sorts else bs, 'the signature keeps the operand multiset (sorting only reorders: duplicates stay)',
+                 f'`{norm(sorts[0]) if sorts else None}` does not sort exactly the operand tuple: XOR(a, b, a) and XOR(a, b) would share a signature', construct='_build_signature keeps the multiset')
+        rets = [n for n in ast.walk(bs) if isinstance(n, ast.Return)]
+        ck.check(len(rets) == 1 and norm(rets[0].value) == f'({bs.args.args[0].arg},) + {bs.args.args[1].arg}', 'C03.SYM', mdg, rets[0] if rets else bs,
+                 'the signature contains the gate type and all operands', f'signature is `{norm(rets[0].value) if rets else None}`', construct='_build_signature value')
 
-    # ---- UNARY ----
-    mu = repo.mod(f'{SIMPL}.merge_unary_operators')
-    d = mu.assign('_unary_to_operand_getter')
-    ck.need(isinstance(d, ast.Dict), f'{mu.rel}: _unary_to_operand_getter is not a dict literal')
-    proj = {}
-    for t, (cls, f, _) in semantics.ORACLE.items():
-        if cls in (semantics.FIX1, semantics.FIX2):
-            n = cls[1]
-            for k in range(n):
-                for neg in (False, True):
-                    if all(bool(f(*xs)) == ((not xs[k]) if neg else xs[k]) for xs in semantics.bools(n)):
-                        proj[t] = (k, neg)
-    for k, v in zip(d.keys, d.values):
-        t = gate_const(repo, mu, k)
-        ck.need(t is not None and isinstance(v, ast.Call) and norm(v.func) == 'operator.itemgetter' and len(v.args) == 1 and isinstance(v.args[0], ast.Constant),
-                f'{mu.rel}: entry `{norm(k)}: {norm(v)}` of _unary_to_operand_getter not understood')
-        idx = v.args[0].value
-        ck.check(t in proj and proj[t][0] == idx, 'C03.UNARY', mu, k, f'{t} reads operand {idx}',
-                 f'{t} is mapped to operand {idx} but its operator reads operand {proj.get(t, ("?",))[0]}', construct=f'_unary_to_operand_getter[{t}] = itemgetter({idx})')
-    fn = mu.func('MergeUnaryOperators._transform')
-    fams = []
-    for node in ast.walk(fn):
-        if isinstance(node, ast.If) and isinstance(node.test, ast.BoolOp) and isinstance(node.test.op, ast.Or):
-            ts = []
-            for v in node.test.values:
-                if isinstance(v, ast.Compare) and len(v.ops) == 1 and isinstance(v.ops[0], ast.Eq) and v.left.__class__ is ast.Attribute and v.left.attr == 'gate_type':
-                    t = gate_const(repo, mu, v.comparators[0])
-                    if t:
-                        ts.append(t)
-            if ts:
-                fams.append((node, frozenset(ts)))
-    neg_types = frozenset(t for t, (k, neg) in proj.items() if neg)
-    pos_types = frozenset(t for t, (k, neg) in proj.items() if not neg)
-    ck.need(len(fams) >= 4, f'{mu.rel}: unary family tests not found (shape changed)')
-    for node, ts in fams:
-        ck.check(ts in (neg_types, pos_types), 'C03.UNARY', mu, node.test, 'a unary family test lists exactly the negation types or exactly the buffer types',
-                 f'family {sorted(ts)} is neither {sorted(neg_types)} nor {sorted(pos_types)}', construct=f'unary family {sorted(ts)} at {mu.qualname_of(node)}')
-    ck.floor('C03.UNARY', 10)
-    ck.rule('C03.FOLD', 'each pass folded by the mini-evaluator over a family of model circuits (shapes named by the property + seeded random ones) with oracle traversals in two visiting orders: new circuit, argument untouched, same inputs, same outputs count and functions, well formed, not larger')
-    from .. import passes
-    passes.fold_passes(ck, 'C03.FOLD')
-    ck.floor('C03.FOLD', 5)
-    from .C18 import unary_chain_fold
-    unary_chain_fold(ck, rule='C03.UNARY')
+        # ---- UNARY ----
+        mu = repo.mod(f'{SIMPL}.merge_unary_operators')
+        d = mu.assign('_unary_to_operand_getter')
+        ck.need(isinstance(d, ast.Dict), f'{mu.rel}: _unary_to_operand_getter is not a dict literal')
+        proj = {}
+        for t, (cls, f, _) in semantics.ORACLE.items():
+            if cls in (semantics.FIX1, semantics.FIX2):
+                n = cls[1]
+                for k in range(n):
+                    for neg in (False, True):
+                        if all(bool(f(*xs)) == ((not xs[k]) if neg else xs[k]) for xs in semantics.bools(n)):
+                            proj[t] = (k, neg)
+        for k, v in zip(d.keys, d.values):
+            t = gate_const(repo, mu, k)
+            ck.need(t is not None and isinstance(v, ast.Call) and norm(v.func) == 'operator.itemgetter' and len(v.args) == 1 and isinstance(v.args[0], ast.Constant),
+                    f'{mu.rel}: entry `{norm(k)}: {norm(v)}` of _unary_to_operand_getter not understood')
+            idx = v.args[0].value
+            ck.check(t in proj and proj[t][0] == idx, 'C03.UNARY', mu, k, f'{t} reads operand {idx}',
+                     f'{t} is mapped to operand {idx} but its operator reads operand {proj.get(t, ("?",))[0]}', construct=f'_unary_to_operand_getter[{t}] = itemgetter({idx})')
+        fn = mu.func('MergeUnaryOperators._transform')
+        fams = []
+        for node in ast.walk(fn):
+            if isinstance(node, ast.If) and isinstance(node.test, ast.BoolOp) and isinstance(node.test.op, ast.Or):
+                ts = []
+                for v in node.test.values:
+                    if isinstance(v, ast.Compare) and len(v.ops) == 1 and isinstance(v.ops[0], ast.Eq) and v.left.__class__ is ast.Attribute and v.left.attr == 'gate_type':
+                        t = gate_const(repo, mu, v.comparators[0])
+                        if t:
+                            ts.append(t)
+                if ts:
+                    fams.append((node, frozenset(ts)))
+        neg_types = frozenset(t for t, (k, neg) in proj.items() if neg)
+        pos_types = frozenset(t for t, (k, neg) in proj.items() if not neg)
+        ck.need(len(fams) >= 4, f'{mu.rel}: unary family tests not found (shape changed)')
+        for node, ts in fams:
+            ck.check(ts in (neg_types, pos_types), 'C03.UNARY', mu, node.test, 'a unary family test lists exactly the negation types or exactly the buffer types',
+                     f'family {sorted(ts)} is neither {sorted(neg_types)} nor {sorted(pos_types)}', construct=f'unary family {sorted(ts)} at {mu.qualname_of(node)}')
+        ck.floor('C03.UNARY', 10)
     ck.rule('C18.IDEM', 'pipelines skip a pass only if it is idempotent and equal to the one just applied (shared with C18): a requested input removal is never dropped')
+    ck.rule('C18.PIPE', 'every way of running several passes (cleanup light / heavy, transform, apply_transformers, the pipe operator) folded over model circuits equals sequential application of the constituent passes (shared with C18): compositions and cleanup keep inputs, outputs and function because each constituent does (C03.FOLD)')
+    passes.fold_pipelines(ck, 'C18.PIPE')
     from .C18 import idem_rules
-    idem_rules(ck)
+    with ck.soft('C18.PIPE'):
+        idem_rules(ck)
     ck.assume('parity bookkeeping of MergeUnaryOperators and representative choice of MergeEquivalentGates are not decided (truth-table equality itself)')
     ck.assume('dfs hooks fire once per reachable gate in post-order (C20)')
 
